@@ -56,13 +56,14 @@ CONFS = {
     'first': 'BeartypeConf(claw_decor_place_func=BeartypeDecorPlace.FIRST)',
     'exc': 'BeartypeConf(violation_type=ValueError)',
     'nopep526+exc': 'BeartypeConf(claw_is_pep526=False, violation_type=ValueError)',
+    'O0': 'BeartypeConf(strategy=BeartypeStrategy.O0)',          # hooked, but nothing is checked
 }
 RUNNER = '''
 import json, sys, warnings
 warnings.simplefilter('ignore')
 conf = %(conf)s
 if conf is not None:
-    from beartype import BeartypeConf, BeartypeDecorPlace
+    from beartype import BeartypeConf, BeartypeDecorPlace, BeartypeStrategy
     from beartype.claw import beartype_package
     beartype_package('c16pkg', conf=eval(conf))
 import c16pkg.a, c16pkg.b
